@@ -18,7 +18,7 @@ FAMILY = "storefault"
 # the fault steps of Model/StoreFault.lean follow the DOCUMENTED failure paths; the open findings F31s-* are exactly the inputs on which the
 # real code (SQLite's whole-transaction rollback on NOMEM, statements left open) deviates from them, so there the model is not compared
 COMPARE_ON_KNOWN = False
-HARNESS = {"source": "x_storefault.c", "leak_clean": False}
+HARNESS = {"source": "x_storefault.c", "leak_clean": False, "extra_sources": ["x_store_body.h", "cifio.h"]}
 RULE = ("store histories (<= 30 ops) with 1-4 faulted calls each (k-th SQLite / ICU allocation of the call fails, k = 1..16), every faulted call "
         "repeated; non-trivial = a fault fired and the call returned an error; oracle = the store oracle (error => nothing changed, autocommit "
         "restored) + model comparison of the repeated call")
@@ -127,11 +127,12 @@ def finding_class(req, impl, model, why):
     if not m:
         return None
     k = int(m.group(1))
+    opname = "itnext" if m.group(2) == "itnextp" else m.group(2)      # next with a caller-supplied packet: the same call
     kind = "autocommit" if "autocommit" in why else ("changed" if "changed" in why else ("names-fail" if "get_names failed" in why else "other"))
     if k in marked:
-        return "fault/%s/cls%s/%s" % (m.group(2), marked[k][0], kind)
+        return "fault/%s/cls%s/%s" % (opname, marked[k][0], kind)
     if k - 1 in marked:
-        return "fault-retry/%s/cls%s/%s" % (m.group(2), marked[k - 1][0], kind)
+        return "fault-retry/%s/cls%s/%s" % (opname, marked[k - 1][0], kind)
     # not fault related: the classes of the plain `store` oracle (F30)
     c = S._chosen(plain.replace("storefault", "store", 1), _plain(impl))
     return c[0] if c else None
